@@ -182,6 +182,11 @@ def _heading_text(r):
             parts.append("\\*" + w + "\\_")
             plain.append("*" + w + "_")
             continue
+        elif k < 0.44:
+            # reference links (the definition is appended to every document)
+            parts.append(r.choice(["[" + w + "][r]", "[" + w + "][R]", "[r]", "[" + w + "][]"]))
+            plain.append("r" if parts[-1] == "[r]" else (w if not parts[-1].endswith("[]") else "[" + w + "][]"))
+            continue
         elif k < 0.55:
             parts.append("*" + w + "*")
         elif k < 0.65:
@@ -248,6 +253,7 @@ def _md_of(doc):
                 out.append("para toc\n")
         else:
             out.append("***\n")
+    out.append("[r]: /ref\n")
     return "\n".join(out)
 
 
@@ -381,7 +387,7 @@ def oracle(ctx, extra):
             "failures": fails, "exhaustive": False,
             "rule": "render_toc_ul: ALL level sequences over 1..6 up to length %d plus random long ones (also levels "
                     "outside 1..6), output parsed by a strict ul/li/a reader and compared with the closest-preceding-"
-                    "shallower tree; documents: random mixes of atx/setext headings with inline markup (star and underscore emphasis, code, links, backslash escapes, & and <), paragraphs, "
+                    "shallower tree; documents: random mixes of atx/setext headings with inline markup (star and underscore emphasis, code, inline and reference links, backslash escapes, & and <), paragraphs, "
                     "headings nested in quotes/lists (must be ignored), toc sections with ranges, via add_toc_hook and "
                     "via the TableOfContents directive, escape on/off; ids, order, listed items, entry text checked; "
                     "non-trivial = at least two distinct levels / at least one heading" % ctx.n(5, 7),
